@@ -241,7 +241,7 @@ Section RunFacts.
     - apply Forall_forall. intros f Hin. apply in_map_iff in Hin. destruct Hin as [c [E _]]. subst. apply set_used_chains_ok.
     - apply Forall_forall. intros f Hin. apply in_map_iff in Hin. destruct Hin as [c [E _]]. subst. apply set_used_chains_ok.
     - constructor; [apply set_used_res_ok|apply ff_pair_steps_ok].
-    - apply ff_pair_steps_ok.
+    - constructor; [apply set_used_res_ok|apply ff_pair_steps_ok].
   Qed.
 
   (* restoring the selection after something that only changed the selection *)
